@@ -16,14 +16,32 @@ def generate(psnap, pgen, mod="GenCpu65"):
     os_, bs, prs, ts = cpueq.parse_model(psnap)
     og, bg, prg, tg = cpueq.parse_model(pgen)
     S, G = "Snapshot." + mod, "Gen." + mod
+    import os, re
+    fsrc = open(os.path.join(os.path.dirname(psnap), "GenFields.v")).read()
+    fnames = re.findall(r"Definition (f_\w+) : N :=", fsrc)
+    fields = " ".join(["Snapshot.GenFields." + n for n in fnames] + ["Gen.GenFields." + n for n in fnames])
     out = ["""(* GENERATED per run by checks/snapeq.py: snapshot of the model %s = regenerated model *)
-From Coq Require Import ZArith List Bool.
+From Coq Require Import ZArith List Bool FunctionalExtensionality.
 From Lib Require Import ZOps Machine.
 From Snapshot Require GenFields %s.
 From Gen Require GenFields %s.
+From Props Require Import CpuEqLib.
 Local Open Scope Z_scope.
-""" % (mod, mod, mod)]
+(* closing step of every lemma: conversion; when the regenerated routine was restructured (say, a helper extracted as a
+   statement), pointwise case analysis down to the Machine primitives (functional extensionality), under a time limit *)
+Ltac seq_close helpers :=
+  first [ timeout 60 reflexivity
+        | timeout 120 (repeat (apply functional_extensionality; intro); helpers;
+                       cbv delta [%s];
+                       unfold bind; cbv beta iota zeta delta [get log upd regs mem trace onpc onwdm];
+                       repeat (first [ match goal with |- context [if ?c then _ else _] => destruct c eqn:? end
+                                     | match goal with |- context [match ?r with Ok _ _ => _ | Panic => _ end] => destruct r eqn:? end ];
+                               cbv beta iota zeta);
+                       try reflexivity; try congruence) ].
+""" % (mod, mod, mod, fields)]
     lemmas, skipped = [], []
+    new_helpers = [n for n in og if n not in bs]
+    helpers = ("repeat (progress unfold " + ", ".join("%s.%s" % (G, n) for n in new_helpers) + ")") if new_helpers else "idtac"
     for t in ts:
         if t in tg:
             base = t[:-5]
@@ -36,8 +54,8 @@ Local Open Scope Z_scope.
 
     def emit_tbl_proc():
         rw = ", ".join("?seq_%s" % n for n in sorted(set(prs)) if n in done)
-        out.append("Lemma seq_tbl_proc : %s.tbl_proc = %s.tbl_proc.\nProof. cbv delta [%s.tbl_proc %s.tbl_proc]. rewrite %s. timeout 60 reflexivity. Qed."
-                   % (S, G, S, G, rw))
+        out.append("Lemma seq_tbl_proc : %s.tbl_proc = %s.tbl_proc.\nProof. cbv delta [%s.tbl_proc %s.tbl_proc]. rewrite %s. seq_close ltac:(%s). Qed."
+                   % (S, G, S, G, rw, helpers))
         lemmas.append("seq_tbl_proc")
 
     for n in os_:
@@ -50,8 +68,8 @@ Local Open Scope Z_scope.
             tbl_done = True
         cs = [c for c in cpueq.callees(bs[n], os_) if c in done and c != n]
         rw = ", ".join(["?seq_%s" % c for c in cs] + (["?seq_tbl_proc"] if uses_tbl else []) + [table_rw])
-        out.append("Lemma seq_%s : %s.%s = %s.%s.\nProof. cbv delta [%s.%s %s.%s]. rewrite %s. timeout 60 reflexivity. Qed."
-                   % (n, S, n, G, n, S, n, G, n, rw))
+        out.append("Lemma seq_%s : %s.%s = %s.%s.\nProof. cbv delta [%s.%s %s.%s]. rewrite %s. seq_close ltac:(%s). Qed."
+                   % (n, S, n, G, n, S, n, G, n, rw, helpers))
         done.add(n)
         lemmas.append("seq_" + n)
     if not tbl_done:
